@@ -55,4 +55,6 @@ def natArr (l : List Nat) : Json := Json.arr (l.map (fun n => Json.num (JsonNumb
 
 def jnat (n : Nat) : Json := Json.num (JsonNumber.fromNat n)
 
+def jint (n : Int) : Json := Json.num (JsonNumber.fromInt n)
+
 end Driver
